@@ -227,7 +227,7 @@ class Case:
 
 # values with exactly printable %f text: multiples of 1/64 (six decimals)
 def exact_consts():
-    vals = [0.0, 1.0, 2.0, 3.5, 0.5, 0.015625, 10.0, 100.25, 7.0, 0.25, 1.5, 64.0]
+    vals = [0.0, 1.0, 2.0, 3.5, 0.5, 0.015625, 10.0, 100.25, 7.0, 0.25, 1.5, 64.0, 3.0, 1000000.0]
     return vals + [-v for v in vals if v != 0.0]
 
 
@@ -253,8 +253,10 @@ class Gen:
         if exact:
             return r.choice(exact_consts())
         k = r.random()
-        if k < 0.4:
+        if k < 0.3:
             return r.choice(exact_consts())
+        if k < 0.4:
+            return float(r.choice([0, 1, -1, 2, -2, 7, -7, 1000000, 3, 12]))
         if k < 0.7:
             return round(r.uniform(-1000, 1000), r.choice([0, 1, 3, 6, 9]))
         if k < 0.8:
@@ -431,9 +433,51 @@ class Gen:
                     self.grow(c, root_inst=p, root_kind=p[2], depth=0, force={(0, j): {"k": "Q", "s": sv}},
                               exec_leg=(p[2] == "R" and p[0] == "real_length"))
                     if p[2] == "R" and p[0] == "real_length":
-                        c.vectors = [[]]
+                        nv = len([x for x in c.syms if x["k"] == "V"])
+                        c.vectors = [[bits_of(1.0)] * nv, [bits_of(2.0)] * nv]
                     if self.rng.random() < 0.5:
                         c.compact_rows()
+                    out.append(c)
+        return out
+
+    def intlit_cases(self):
+        """integer-valued (and few-decimal) parameters of the REAL ephemeral constants as BOTH operands of the
+        binary real functions and in the compared positions of the conditionals: in C, C++ and MQL `7/2`
+        is 3, so a real constant must be printed as a floating literal; executed against the interpreter"""
+        out = []
+        vals = [0.0, 1.0, -1.0, 2.0, -2.0, 7.0, -7.0, 3.0, 1e6, -0.0, 0.5, 2.5, -7.5, 1.25, 100.0, 10.0]
+        kinds = ["real_real", "real_integer", "D"]
+        parents = [x for x in self.cat.functions("R", EXEC_FUNS) if x[0] != "real_length" and x[1] == ("R",) * len(x[1])]
+        r = self.rng
+        for p in parents:
+            n = len(p[3])
+            if n == 1:
+                combos = [(a, 0.0) for a in vals]
+            elif n == 2 and p[0] in ("real_div", "real_idiv", "real_mod"):
+                combos = [(a, b) for a in vals[:8] for b in vals[:8]]
+            elif n == 2:
+                combos = [(a, b) for a in vals[:8:2] for b in vals[1:8:2]]
+            else:
+                combos = r.sample([(a, b) for a in vals for b in vals[:3]], 16)
+            for a, b in combos:
+                for kind in kinds:
+                    c = Case("intlit")
+                    cc = c.cat("R")
+
+                    def term(v):
+                        if kind == "D":
+                            return {"k": "D", "bits": bits_of(v), "cat": cc}, None
+                        if kind == "real_integer":
+                            v = float(int(v))
+                        return {"k": "K", "ident": kind, "cv": [cc], "cat": cc, "argcats": []}, bits_of(v)
+                    genes = [[c.sym_index(self.function_sym(c, p)), None, []]]
+                    for j in range(n):
+                        s, par = term(a if j == 0 else b if j == 1 else r.choice(vals))
+                        genes.append([c.sym_index(s), par, []])
+                        genes[0][2].append(len(genes) - 1)
+                    c.genes = [tuple(g) for g in genes]
+                    c.kinds = ["R"] * len(genes)
+                    c.vectors = [[], []]      # no variable: two empty input vectors (an empty field would be dropped)
                     out.append(c)
         return out
 
@@ -781,6 +825,10 @@ def pieces_text(pieces, par):
             out += p[1].decode("latin-1")
         elif p[0] == "to_string_param":
             out += fmt_f(dbl_of(par))
+        elif p[0] == "to_string_param_trim":
+            t = fmt_f(dbl_of(par))
+            t = t.rstrip("0") if t.rstrip("0") else t
+            out += t[:-1] if t.endswith(".") else t
         else:
             out += str(int(dbl_of(par)))
     return out
@@ -840,6 +888,62 @@ def expected_ast(case, fmt, catalog):
         memo[row] = e
         return e
     return go(0)
+
+
+NUM_INT_RE = re.compile(r"^\(?-?\d+\)?$")
+
+
+def norm_ast(e, fmt):
+    """numeric literals compared by value and, in the C-like languages, by kind (7 is an int, 7.0 a
+    double: `7/2` is not `7.0/2.0`); their spelling (2.5 vs 2.500000) does not matter"""
+    k = e[0]
+    if k == "num":
+        try:
+            v = float(e[1])
+        except ValueError:
+            return e
+        floating = any(ch in e[1] for ch in ".eE")
+        return ("num", v, floating if fmt != "py" else True)
+    if k in ("id", "str", "hole"):
+        return e
+    if k == "call":
+        return ("call", norm_ast(e[1], fmt), [norm_ast(a, fmt) for a in e[2]])
+    if k == "mem":
+        return ("mem", norm_ast(e[1], fmt), e[2])
+    if k == "un":
+        return ("un", e[1], norm_ast(e[2], fmt))
+    if k == "bin":
+        return ("bin", e[1], norm_ast(e[2], fmt), norm_ast(e[3], fmt))
+    if k == "cmp":
+        return ("cmp", e[1], [norm_ast(a, fmt) for a in e[2]])
+    if k == "cond":
+        return ("cond", norm_ast(e[1], fmt), norm_ast(e[2], fmt), norm_ast(e[3], fmt))
+    return e
+
+
+REAL_TERMINALS = ("real_real", "real_integer")
+
+
+def integer_literals_for_reals(case, fmt, catalog):
+    """texts of real-valued constants (REAL ephemerals, constant<double>) reached by the active tree that
+    are INTEGER literals of the C grammar: the exported C / C++ / MQL expression then computes with ints"""
+    bad = []
+    seen = set()
+
+    def walk(i):
+        if i in seen:
+            return
+        seen.add(i)
+        si, par, args = case.genes[i]
+        s = case.syms[si]
+        if (s["k"] == "K" and s["ident"] in REAL_TERMINALS) or s["k"] == "D":
+            t = terminal_text(case, s, par, fmt, catalog)
+            if NUM_INT_RE.match(t):
+                bad.append(t)
+        for a in args:
+            walk(a)
+    walk(0)
+    return bad
 
 
 def show_ast(e):
